@@ -9,6 +9,8 @@ DERIVED_COUNTS = {"NSat", "NSig", "NCell", "_NHarmCoeffC", "_NHarmCoeffS"}
 
 
 def T():
+    from pyvc import extract
+    extract.ensure_path()
     import pyrtcm.rtcmtypes_core as core
     from pyrtcm.rtcmtypes_get import RTCM_PAYLOADS_GET as g
     from pyrtcm.rtcmtypes_get_igs import RTCM_PAYLOADS_GET_IGS as i
